@@ -153,22 +153,23 @@ struct Sum {
 // ------------------------------------------------------------------------------------------------
 // the transcoder under test + guarded calls
 // ------------------------------------------------------------------------------------------------
-static const size_t CAP = 4096;
+static const size_t CAP = 4096;            // block size given to makeNewTranscoderFor (ICU transcoders: maxChars must not exceed it)
+static const size_t BIGCAP = 20480;        // capacity of the guarded output buffers (lane deep uses blocks > 16384)
 enum Exc { E_NONE = 0, E_UTFDATA, E_TRANSCODING, E_OTHERXML, E_FOREIGN };
 static const char* excName(int e) { static const char* n[] = {"none", "UTFDataFormatException", "TranscodingException", "XMLException(other)", "FOREIGN"}; return n[e]; }
 struct Tc {
-    const TcDesc* d; XMLTranscoder* t = 0;
-    Tc(const TcDesc* dd) : d(dd) { make(); }
+    const TcDesc* d; XMLTranscoder* t = 0; size_t block;
+    Tc(const TcDesc* dd, size_t blk = CAP) : d(dd), block(blk) { make(); }
     ~Tc() { delete t; }
     void make() {
         delete t; t = 0; XMLTransService::Codes rc;
-        t = XMLPlatformUtils::fgTransService->makeNewTranscoderFor(d->name, rc, CAP);
+        t = XMLPlatformUtils::fgTransService->makeNewTranscoderFor(d->name, rc, block);
     }
     void afterExc() { if (d->icuProvided) make(); }        // an ICU converter keeps error state: start from a fresh one
 };
 struct FromRes { int exc = 0; Units out; size_t eaten = 0; Bytes sizes; std::string bad; };
 struct ToRes { int exc = 0; Bytes out; size_t eaten = 0; std::string bad; };
-static XMLCh g_obuf[CAP + 16]; static unsigned char g_sbuf[CAP + 16]; static XMLByte g_bbuf[CAP * 4 + 16];
+static XMLCh g_obuf[BIGCAP + 16]; static unsigned char g_sbuf[BIGCAP + 16]; static XMLByte g_bbuf[BIGCAP * 4 + 16];
 
 // source is copied to an exact-size heap block (ASan sees over-reads); outputs are canary guarded
 static void callFrom(Tc& tc, const uint8_t* src, size_t n, size_t maxChars, FromRes& r, bool heapSrc = true) {
@@ -754,6 +755,105 @@ static std::string runSplit(const Req& q, Sum& sum) {
     return o;
 }
 
+
+// ================================================================================================
+// lane: deep -- a valid run of L characters + ONE illegal unit + a valid tail: the illegal unit must be rejected wherever it
+// sits in a block (one-shot and block-wise calls, with and without a split between two reads).  Never: consumed silently.
+// ================================================================================================
+struct DeepSrc { Bytes src; Units expect; std::vector<long> unitsAt; size_t p; };      // unitsAt[byte offset] = #units decoded so far, -1 inside a character
+static bool deepBuild(const TcDesc* d, size_t L, const std::string& run, const Bytes& bad, DeepSrc& o) {
+    static const uint32_t mixed[] = {0x61, 0xE9, 0x20AC, 0x62, 0x1F600, 0x7A, 0x4E2D, 0x10FFFF};
+    o = DeepSrc(); o.unitsAt.push_back(0);
+    for (size_t i = 0; i < L; i++) {
+        uint32_t cp = run == "mixed" ? mixed[i % 8] : (uint32_t)(0x61 + i % 26);
+        Bytes e; if (refEncode(d, cp, e) != 1) { cp = 0x61 + i % 26; if (refEncode(d, cp, e) != 1) return false; }
+        o.src.insert(o.src.end(), e.begin(), e.end()); unitsOf(cp, o.expect);
+        for (size_t k = 1; k < e.size(); k++) o.unitsAt.push_back(-1);
+        o.unitsAt.push_back((long)o.expect.size());
+    }
+    o.p = o.src.size();
+    o.src.insert(o.src.end(), bad.begin(), bad.end());
+    static const char tail[] = "<tail>xy";
+    for (size_t i = 0; i < 8; i++) { Bytes e; if (refEncode(d, (uint32_t)tail[i], e) != 1) return false; o.src.insert(o.src.end(), e.begin(), e.end()); }
+    return true;
+}
+static std::string deepOne(const TcDesc* d, const DeepSrc& S, size_t m, size_t k) {
+    Tc tc(d, m > CAP ? BIGCAP : CAP); if (!tc.t) return "no transcoder";
+    Units acc; size_t consumed = 0, avail = k < S.src.size() ? k : S.src.size(); int phase = avail == S.src.size() ? 1 : 0; int guard = 0;
+    while (true) {
+        if (guard++ > 40000) return "no termination";
+        FromRes f; callFrom(tc, S.src.empty() ? (const uint8_t*)"" : &S.src[0] + consumed, avail - consumed, m, f);
+        if (!f.bad.empty()) return f.bad;
+        if (f.exc) { if (f.exc != E_UTFDATA && f.exc != E_TRANSCODING) return std::string("rejected with ") + excName(f.exc); return ""; }      // rejected: fine
+        if (f.eaten == 0 && f.out.empty() && m == 1 && avail > consumed) { callFrom(tc, &S.src[0] + consumed, avail - consumed, 2, f); if (!f.bad.empty()) return f.bad; if (f.exc) return ""; }
+        if (!d->icuProvided) { size_t sz = 0; for (size_t i = 0; i < f.sizes.size(); i++) sz += f.sizes[i]; if (sz != f.eaten) return "sum(charSizes)=" + std::to_string(sz) + " != bytesEaten=" + std::to_string(f.eaten) + " at offset " + std::to_string(consumed); }
+        acc.insert(acc.end(), f.out.begin(), f.out.end()); consumed += f.eaten;
+        if (acc.size() > S.expect.size() || !std::equal(acc.begin(), acc.end(), S.expect.begin()))
+            return "decoded [.. " + hexU(acc.size() > 4 ? &acc[acc.size() - 4] : (acc.empty() ? (const XMLCh*)u"" : &acc[0]), acc.size() > 4 ? 4 : acc.size()) + "] (" + std::to_string(acc.size()) + " units) which is not a prefix of the " + std::to_string(S.expect.size()) + " valid characters before the illegal unit";
+        if (consumed > S.p && !d->icuProvided) return "the illegal unit at offset " + std::to_string(S.p) + " was consumed silently: bytesEaten reached " + std::to_string(consumed) + " with " + std::to_string(acc.size()) + " characters produced and no exception";
+        if (consumed <= S.p && !d->icuProvided && S.unitsAt[consumed] != (long)acc.size()) return "bytesEaten=" + std::to_string(consumed) + " does not match the " + std::to_string(acc.size()) + " characters produced";
+        if (f.eaten == 0 && f.out.empty()) {
+            if (phase == 0) { phase = 1; avail = S.src.size(); continue; }
+            return "the illegal unit at offset " + std::to_string(S.p) + " was neither rejected nor consumed (no progress at offset " + std::to_string(consumed) + ", no exception)";
+        }
+        if (consumed >= avail) { if (phase == 0) { phase = 1; avail = S.src.size(); continue; } return "the whole source was consumed without an exception although it contains an illegal unit at offset " + std::to_string(S.p); }
+    }
+}
+// illegal units of a transcoder; skipId = finding that currently excludes them (or 0)
+static void deepBadUnits(const TcDesc* d, unsigned seed, std::vector<Bytes>& out, const char*& skipId) {
+    skipId = 0; out.clear();
+    if (d->kind == K_UTF8) { static const char* b[] = {"80", "BF", "C080", "C1BF", "E08080", "EDA080", "F08FBFBF", "F4908080", "F880808080", "FF", "C2", "E282", "F09F98"}; for (size_t i = 0; i < 13; i++) out.push_back(unhexB(b[i])); }
+    else if (d->kind == K_UCS4) { skipId = F_UCS4_RANGE; static const uint32_t v[] = {0x110000, 0xD800, 0xDFFF, 0xFFFFFFFF, 0x04010000}; for (size_t i = 0; i < 5; i++) { Bytes e; for (int j = 0; j < 4; j++) e.push_back((uint8_t)(v[i] >> (d->bigEndian ? 24 - 8 * j : 8 * j))); out.push_back(e); } }
+    else if (d->kind == K_SB) { IcuRef* r = refFor(d); if (!r || !r->c) return; if (d->icuProvided) skipId = F_ICU_SUBST; std::vector<int> u; for (int b = 0; b < 256; b++) if (!r->def[b] && !r->xbytes.count(b)) u.push_back(b);
+        if (u.empty()) return; std::set<int> pick; pick.insert(u.front()); pick.insert(u.back()); pick.insert(u[(seed * 2654435761u >> 8) % u.size()]); for (std::set<int>::iterator i = pick.begin(); i != pick.end(); ++i) out.push_back(Bytes(1, (uint8_t)*i)); }
+    else if (d->kind == K_MB) { skipId = F_ICU_SUBST; std::string n = d->name; out.push_back(unhexB(n == "Shift_JIS" ? "8220" : n == "EUC-JP" ? "A441" : "81308120")); }
+    // UTF-16 / XERCES-XMLCH: every 16-bit unit passes through (pairing is checked by the scanner): no illegal unit at this level
+}
+static void deepConfigs(size_t L, size_t n, size_t p, size_t badLen, bool thorough, std::vector<std::pair<size_t, size_t> >& cfg) {
+    cfg.clear(); size_t big = L + 64 < BIGCAP ? L + 64 : BIGCAP;
+    std::vector<size_t> ms;
+    if (L <= 100) { static const size_t a[] = {1, 2, 7, 31, 32, 33, 34, 35, 64}; ms.assign(a, a + 9); if (thorough) for (size_t m = 3; m <= 40; m++) ms.push_back(m); }
+    else { ms.push_back(33); ms.push_back(34); ms.push_back(1000); if (L > 16000) { ms.push_back(16384); ms.push_back(4096); } }
+    ms.push_back(big);
+    for (size_t i = 0; i < ms.size(); i++) cfg.push_back(std::make_pair(ms[i], n));
+    size_t ks[] = {p, p + 1, p + badLen, p ? p - 1 : 0, 34, p / 2};
+    for (size_t i = 0; i < 6; i++) if (ks[i] < n) { cfg.push_back(std::make_pair(big, ks[i])); cfg.push_back(std::make_pair((size_t)33, ks[i])); }
+}
+static std::vector<size_t> deepLengths() { std::vector<size_t> v; for (size_t l = 0; l <= 70; l++) v.push_back(l); v.push_back(100); v.push_back(1000); v.push_back(16383); v.push_back(16384); v.push_back(16385); return v; }
+static void laneDeep(const Req& q, Sum& sum) {
+    const TcDesc* d = findTc(get(q, "tc")); if (!d) { sum.fail("lane=deep\ttc=" + get(q, "tc"), "unknown transcoder"); return; }
+    long w = geti(q, "worker", 0), nw = geti(q, "nworkers", 1); bool thorough = get(q, "tier", "quick") == "thorough"; unsigned seed = (unsigned)geti(q, "seed", 1);
+    std::vector<Bytes> bads; const char* skipId; deepBadUnits(d, seed, bads, skipId);
+    if (bads.empty()) return;
+    Sub& s = sum.subs[std::string("deep:") + d->name + "(valid run L in 0..70,100,1000,16383..16385 + 1 illegal unit + tail; block sizes x split)"]; s.exhaustive = false;
+    std::vector<size_t> Ls = deepLengths(); unsigned long idx = 0;
+    std::vector<std::string> runs; runs.push_back("ascii"); if (d->kind == K_UTF8 || d->kind == K_UCS4 || d->kind == K_MB) runs.push_back("mixed");
+    for (size_t li = 0; li < Ls.size(); li++) for (size_t bi = 0; bi < bads.size(); bi++) for (size_t ri = 0; ri < runs.size(); ri++) {
+        if ((long)(idx++ % nw) != w) continue;
+        if (!thorough && Ls[li] > 100 && bi % 4 != (seed + li) % 4 && bads.size() > 4) continue;          // quick: the long runs with a quarter of the illegal units
+        DeepSrc S; if (!deepBuild(d, Ls[li], runs[ri], bads[bi], S)) continue;
+        std::vector<std::pair<size_t, size_t> > cfg; deepConfigs(Ls[li], S.src.size(), S.p, bads[bi].size(), thorough, cfg);
+        for (size_t c = 0; c < cfg.size(); c++) {
+            if (skipId && sum.skipping(skipId)) { sum.excl[skipId]++; continue; }
+            std::string why = deepOne(d, S, cfg[c].first, cfg[c].second); s.eval++; s.nontriv++;
+            sum.labels[Ls[li] < 33 ? "deep:L<33" : Ls[li] <= 100 ? "deep:L=33..100" : "deep:L>=1000"]++;
+            if (!why.empty()) sum.fail("lane=deep\ttc=" + std::string(d->name) + "\tL=" + std::to_string(Ls[li]) + "\trun=" + runs[ri] + "\tbad=" + hexB(bads[bi]) + "\tm=" + std::to_string(cfg[c].first) + "\tk=" + std::to_string(cfg[c].second), why);
+        }
+    }
+    sum.labels[std::string("tc:") + d->name] += s.eval;
+    sum.sample(std::string("deep ") + d->name + ": 'abc..'*L + illegal unit + '<tail>xy'");
+}
+static std::string itemDeep(const Req& q, Sum& sum) {
+    const TcDesc* d = findTc(get(q, "tc")); if (!d) return "BAD\tunknown transcoder\n";
+    std::vector<Bytes> bads; const char* skipId; deepBadUnits(d, 1, bads, skipId);
+    if (skipId && sum.skipping(skipId)) return "SKIP\n";
+    Bytes bad = unhexB(get(q, "bad")); size_t L = (size_t)geti(q, "L", 40); DeepSrc S; if (bad.empty() || L > 16400 || !deepBuild(d, L, get(q, "run", "ascii"), bad, S)) return "BAD\tcannot build\n";
+    std::vector<std::pair<size_t, size_t> > cfg;
+    if (q.count("m")) cfg.push_back(std::make_pair((size_t)geti(q, "m"), q.count("k") ? (size_t)geti(q, "k") : S.src.size())); else deepConfigs(L, S.src.size(), S.p, bad.size(), true, cfg);
+    for (size_t c = 0; c < cfg.size(); c++) { if (cfg[c].first == 0 || cfg[c].first > BIGCAP) return "BAD\tm\n"; std::string why = deepOne(d, S, cfg[c].first, cfg[c].second); if (!why.empty()) return "FAIL\tm=" + std::to_string(cfg[c].first) + " k=" + std::to_string(cfg[c].second) + ": " + why + "\n"; }
+    return "OK\n";
+}
+
 // ================================================================================================
 // dispatch
 // ================================================================================================
@@ -764,7 +864,7 @@ static void applyCommon(const Req& q, Sum& sum) {
 static std::string hLane(const Req& q) {
     Sum sum; applyCommon(q, sum); std::string l = get(q, "lane");
     if (l == "scalar") laneScalar(q, sum); else if (l == "utf8") laneUtf8(q, sum); else if (l == "utf16") laneUtf16(q, sum);
-    else if (l == "ucs4") laneUcs4(q, sum); else if (l == "page") lanePage(q, sum); else if (l == "surr") laneSurr(q, sum);
+    else if (l == "ucs4") laneUcs4(q, sum); else if (l == "page") lanePage(q, sum); else if (l == "surr") laneSurr(q, sum); else if (l == "deep") laneDeep(q, sum);
     else sum.fail("lane=" + l, "unknown lane");
     return sum.str();
 }
@@ -772,6 +872,7 @@ static std::string hLane(const Req& q) {
 static std::string hItem(const Req& q) {
     Sum sum; applyCommon(q, sum); std::string l = get(q, "lane"); std::string why;
     if (l == "split") return runSplit(q, sum);
+    if (l == "deep") return itemDeep(q, sum);
     const TcDesc* d = findTc(get(q, "tc")); if (!d) return "BAD\tunknown transcoder\n";
     Tc tc(d); if (!tc.t) return "FAIL\tmakeNewTranscoderFor returned null\n";
     if (l == "scalar") why = checkScalar(tc, (uint32_t)strtoul(get(q, "cp").c_str(), 0, 16), sum);
